@@ -89,6 +89,7 @@ BODIES = {
     'call-index-also-written': '  ia = 1\n  do i=1,n\n    if (flag) then\n      call k_slot(a(ia), ia)\n    end if\n  end do\n  s = real(ia)',
     'call-index-of-in-and-out-elements-also-written': '  ic = 2\n  call k_slot3(b(ic), c(ic, 1), ic)\n  t = c(2, 1) + real(ic)',
     'call-section-index-only-read': '  ib = 2\n  call k_rw(n, c(:, ib), w, t)\n  call k_slot(w(ib), ia)',
+    'loop-variable-stride-written-in-outer': '  k1 = 1\n  do i=1,n\n    do j=1,n,k1\n      a(j) = a(j) + 1.0\n    end do\n    k1 = i + 1\n  end do',
     'early-exit': '  x = 0.\n  do i=1,n\n    if (a(i) < 0.) exit\n    x = x + a(i)\n  end do\n  s = x + real(i)',
 }
 
